@@ -71,3 +71,18 @@ def _classify_c03(name, case, msg):
     if fmt.startswith("gcxs") and 0 in shp and name in ("var", "std") and "AttributeError" in msg:
         return "F-gcxs-empty-var"
     return None
+
+
+def _classify_c09(name, case, msg):
+    mem = case.get("members")
+    if name == "stack" and mem and all(m["format"].startswith("gcxs") for m in mem) and all(np_ndim(m["dense"]) == 0 for m in mem) and "fingerprint" in msg:
+        return "F-gcxs-0d-stack"
+    return None
+
+
+def np_ndim(x):
+    n = 0
+    while isinstance(x, list):
+        n += 1
+        x = x[0] if x else None
+    return n
